@@ -1,4 +1,5 @@
 import IV.Lemmas.TextFormats
+import IV.Lemmas.TextFormats2
 import IV.Gen.Matchers
 /-!
 C15 — shared text-format helpers recover the data that was rendered.
@@ -92,6 +93,160 @@ example : parseFixedTable (renderFixed nameMeX) ["NAME".toList] [] ["Total".toLi
 theorem old_index_rule_witness :
     calcColumnIndicesOld "NAME ME X".toList ["NAME".toList, "ME".toList, "X".toList] 0 = some [0, 2, 8] ∧
     calcColumnIndices "NAME ME X".toList ["NAME".toList, "ME".toList, "X".toList] 0 = some [0, 5, 8] := by decide
+
+/-! ### delimited tables -/
+
+/-- SPLIT UNDOES JOIN (the core of the delimited round trip): for a non-empty delimiter string `d` of
+    any length, cells that pass `sepFree d` (for a one-character delimiter: do not contain it), and an
+    unlimited or sufficient `maxsplit`: `d.join(cells).split(d, maxsplit) == cells` -/
+theorem split_join_inverse (d : Str) (hd : d ≠ []) (cells : List Str) (hne : cells ≠ []) (max : Option Nat)
+    (hc : ∀ c ∈ cells, sepFree d c = true) (hmax : budgetOk max cells.length = true) :
+    pySplit (some d) max (joinStr d cells) = some cells := by
+  have : d.isEmpty = false := by cases d with
+    | nil => exact absurd rfl hd
+    | cons _ _ => rfl
+  simp only [pySplit, this, Bool.false_eq_true, if_false]
+  rw [splitSep_joinStr d hd cells max hne hc hmax]
+
+/-- for a one-character delimiter `sepFree` says: the character is not in the cell; `sepOk`: it is not white space -/
+theorem sepFree_one_char (ch : Char) (c : Str) : (sepFree [ch] c = true ↔ ch ∉ c) ∧ (sepOk [ch] = !isSpace ch) :=
+  ⟨sepFree_char ch c, sepOk_char ch⟩
+
+/-- `sepFree` is needed for longer delimiters: no cell contains "aa", yet join-then-split moves a character -/
+example : contains "aa".toList "a".toList = false ∧ contains "aa".toList [] = false ∧
+    pySplit (some "aa".toList) none (joinStr "aa".toList ["a".toList, []]) = some [[], "a".toList] := by decide
+
+/-- the same for white-space splitting: non-empty cells without white space, joined by any non-empty
+    white-space gap, with white space before and after -/
+theorem split_join_inverse_ws (l : WsLine) (h : l.ok = true) (max : Option Nat)
+    (hmax : budgetOk max l.cells.length = true) :
+    pySplit none none l.render = some l.cells ∧ pySplit none max (strip l.render) = some l.cells := by
+  have hw := l.wf_of_ok h
+  constructor
+  · simp only [pySplit]
+    rw [← splitWs_strip, l.strip_render hw]
+    exact congrArg some (splitWs_joinStr _ hw.gap_ok _ none hw.cells_ok rfl)
+  · simp only [pySplit, splitWs]
+    rw [l.strip_render hw, splitWs_joinStr _ hw.gap_ok _ _ hw.cells_ok hmax]
+
+/-- Round trip, explicit delimiter: a delimiter string `d` of any length that neither starts nor ends
+    with white space; headers and cells written with arbitrary white-space padding around them and
+    passing `sepFree d`; rows of any length (ragged rows are zipped like `dict(zip(...))`); any
+    `max_splits` that is negative or at least the number of cells − 1; junk lines before the heading
+    (`heading_ignore`), footer lines after the data (`trailing_ignore`); `strip=True`;
+    `header_delim` left alone or given as `d`.  Every data line comes back as the dict of its
+    (stripped header, stripped cell) pairs, in order.  `DelimTable.ok` is the decidable list of these
+    conditions (IV/Lemmas/TextFormats2.lean). -/
+theorem delimited_roundtrip (d : Str) (max : Option Nat) (hi ti : List Str) (t : DelimTable)
+    (h : t.ok d max hi ti = true) (hdl : HeaderDelim) (hh : hdl = .same ∨ hdl = .other (some d)) :
+    parseDelimitedTable (renderDelimTable d t) (some d) max true hdl hi [] ti none
+      = .ok (t.rows.map (fun r => fromPairs ((t.names.map strip).zip (r.map strip)))) := by
+  rcases hh with rfl | rfl
+  · rw [parseDelimitedTable_same]; exact delimited_roundtrip_aux d max hi ti t h
+  · exact delimited_roundtrip_aux d max hi ti t h
+
+/-- a two-character delimiter, padded cells, an empty cell, a ragged row, a junk line, two footer lines, `max_splits=2` -/
+def exDelim : DelimTable :=
+  { junk := ["# x".toList], names := ["id".toList, " nm ".toList, "k".toList],
+    rows := [["1".toList, " a b".toList, "".toList], ["2 ".toList, "c".toList]],
+    footer := ["".toList, "-- 2".toList] }
+
+example : exDelim.ok "::".toList (some 2) ["id".toList] ["--".toList] = true := by decide
+
+example : parseDelimitedTable (renderDelimTable "::".toList exDelim) (some "::".toList) (some 2) true .same
+      ["id".toList] [] ["--".toList] none
+    = .ok [[("id".toList, "1".toList), ("nm".toList, "a b".toList), ("k".toList, [])],
+           [("id".toList, "2".toList), ("nm".toList, "c".toList)]] := by decide
+
+/-- the model's one-character renderer `renderDelimited` is the case of no junk and no footer -/
+theorem renderDelimited_eq (ch : Char) (names : List Str) (rows : List (List Str)) :
+    renderDelimited ch names rows = renderDelimTable [ch] ⟨[], names, rows, []⟩ := by
+  simp only [renderDelimited, renderDelimTable, List.nil_append, List.append_nil, joinWith_eq_joinStr]
+  congr 1
+  apply List.map_congr_left
+  intro r _
+  exact joinWith_eq_joinStr ch r
+
+/-- Round trip of `renderDelimited`, stated without the test function: a one-character delimiter that
+    is not white space and occurs in no header and no cell; headers and cells stripped, headers
+    distinct, every row as long as the header and not blank.  The rows come back exactly as the lists
+    of (header, cell) pairs. -/
+theorem delimited_roundtrip_char (ch : Char) (hch : isSpace ch = false) (names : List Str) (rows : List (List Str))
+    (hne : names ≠ []) (hn : ∀ n ∈ names, ch ∉ n ∧ Stripped n) (hnd : names.Nodup)
+    (hr : ∀ r ∈ rows, r.length = names.length ∧ rowVisible r = true ∧ ∀ c ∈ r, ch ∉ c ∧ Stripped c) :
+    parseDelimitedTable (renderDelimited ch names rows) (some [ch]) none true .same [] [] [] none
+      = .ok (rows.map (fun r => names.zip r)) := by
+  have hok : (⟨[], names, rows, []⟩ : DelimTable).ok [ch] none [] [] = true := by
+    have h1 : sepOk [ch] = true := by rw [sepOk_char, hch]; rfl
+    have h2 : names.isEmpty = false := by cases names with
+      | nil => exact absurd rfl hne
+      | cons _ _ => rfl
+    have h3 : names.all (sepFree [ch]) = true :=
+      List.all_eq_true.mpr (fun n h => (sepFree_char ch n).mpr (hn n h).1)
+    have h4 : rows.all (fun r => rowVisible r && r.all (sepFree [ch]) && budgetOk none r.length &&
+        !foundAny (([] : List Str).map strip) (strip (joinStr [ch] r))) = true := by
+      apply List.all_eq_true.mpr
+      intro r h
+      have h41 : r.all (sepFree [ch]) = true :=
+        List.all_eq_true.mpr (fun c hc => (sepFree_char ch c).mpr ((hr r h).2.2 c hc).1)
+      simp only [(hr r h).2.1, h41, budgetOk, foundAny, List.map_nil, List.any_nil, Bool.not_false, Bool.and_self]
+    have h5 : aroundOk [] [] [] [] (joinStr [ch] names) = true := rfl
+    simp only [DelimTable.ok, h1, h2, h3, h4, h5, Bool.not_false, Bool.and_self]
+  rw [renderDelimited_eq, delimited_roundtrip [ch] none [] [] _ hok .same (Or.inl rfl)]
+  have hsn : names.map strip = names := by
+    have : ∀ l : List Str, (∀ n ∈ l, Stripped n) → l.map strip = l := by
+      intro l
+      induction l with
+      | nil => intro _; rfl
+      | cons x xs ih =>
+        intro h
+        rw [List.map_cons, strip_of_stripped x (h x (by simp)), ih (fun y hy => h y (by simp [hy]))]
+    exact this names (fun n h => (hn n h).2)
+  congr 1
+  apply List.map_congr_left
+  intro r hrm
+  have hsr : r.map strip = r := by
+    have : ∀ l : List Str, (∀ n ∈ l, Stripped n) → l.map strip = l := by
+      intro l
+      induction l with
+      | nil => intro _; rfl
+      | cons x xs ih =>
+        intro h
+        rw [List.map_cons, strip_of_stripped x (h x (by simp)), ih (fun y hy => h y (by simp [hy]))]
+    exact this r (fun c h => ((hr r hrm).2.2 c h).2)
+  simp only
+  rw [hsn, hsr]
+  apply fromPairs_of_nodup
+  rw [List.map_fst_zip (by rw [(hr r hrm).1]; exact Nat.le_refl _)]
+  exact hnd
+
+example : parseDelimitedTable (renderDelimited ',' ["a".toList, "b c".toList] [["1".toList, []], [[], "x y".toList]])
+      (some [',']) none true .same [] [] [] none
+    = .ok [[("a".toList, "1".toList), ("b c".toList, [])], [("a".toList, []), ("b c".toList, "x y".toList)]] := by decide
+
+/-- Round trip, white-space delimiter (`delim=None`): every line is white space, then non-empty
+    cells without inner white space separated by a non-empty white-space gap, then white space; rows
+    of any positive length; `max_splits` negative or at least the number of cells − 1; junk and footer
+    lines as above; EITHER setting of `strip` (the docstring's "will not change output in that case");
+    `header_delim` left alone or `None`.  `WsTable.ok` is the decidable list of these conditions. -/
+theorem delimited_roundtrip_ws (max : Option Nat) (st : Bool) (hi ti : List Str) (t : WsTable)
+    (h : t.ok max hi ti = true) (hdl : HeaderDelim) (hh : hdl = .same ∨ hdl = .other none) :
+    parseDelimitedTable (renderWsTable t) none max st hdl hi [] ti none
+      = .ok (t.rows.map (fun r => fromPairs (t.head.cells.zip r.cells))) := by
+  rcases hh with rfl | rfl
+  · rw [parseDelimitedTable_same]; exact delimited_roundtrip_ws_aux max st hi ti t h
+  · exact delimited_roundtrip_ws_aux max st hi ti t h
+
+/-- tabs and spaces as gaps, leading and trailing white space, a junk line, a footer line, `max_splits=1` -/
+def exWs : WsTable :=
+  { junk := ["note".toList], head := ⟨[' '], [' ', ' '], ["A".toList, "B".toList], []⟩,
+    rows := [⟨[], ['\t'], ["1".toList, "x".toList], [' ']⟩, ⟨[' '], [' '], ["2".toList], []⟩],
+    footer := ["Total 2".toList] }
+
+example : exWs.ok (some 1) ["A".toList] ["Total".toList] = true := by decide
+
+example : parseDelimitedTable (renderWsTable exWs) none (some 1) false .same ["A".toList] [] ["Total".toList] none
+    = .ok [[("A".toList, "1".toList), ("B".toList, "x".toList)], [("A".toList, "2".toList)]] := by decide
 
 /-! ### keyword_search: the matcher table of the live module -/
 
@@ -233,5 +388,143 @@ theorem ini_default_duplicate_witness :
                             ⟨"s".toList, [⟨"b".toList, some "x".toList⟩]⟩]
     iniGet d DEFAULT "a".toList = .ok (some "2".toList) ∧ iniGet d "s".toList "a".toList = .ok (some "1".toList) := by
   decide
+
+/-! ### IniConfigFile: duplicates and repeated sections -/
+
+/-- LAST DUPLICATE WINS.  `occurrences t sec k` are the options of the sections called `sec` whose
+    lower-cased name is `k`, in document order (all repetitions of the section, all spellings of the
+    name).  If the last of them, `o`, carries a value (or `allow_no_value` is set), `get(sec, opt)`
+    returns exactly `o`'s value — for every tree, every spelling of `opt`, padded `sec`.
+    Side condition `defaultsInert` (decidable, IV/Lemmas/TextFormats2.lean): the section asked for is
+    DEFAULT itself, or every DEFAULT option with the same lower-cased name is spelled exactly like an
+    option of every section called `sec`, i.e. `apply_defaults` appends no option of that name to
+    them.  (`o` without a value and `allow_no_value=False`: the option line is skipped by the code,
+    so an earlier one is returned — not covered here.) -/
+theorem ini_last_duplicate_wins (anv : Bool) (t : IniTree) (sec opt : Str) (o : IniOpt)
+    (hlast : (occurrences t (strip sec) (lower opt)).getLast? = some o)
+    (hval : o.value.isSome = true ∨ anv = true)
+    (hdef : defaultsInert t (strip sec) (lower opt) = true) :
+    iniGet (iniView anv t) sec opt = .ok o.value :=
+  ini_last_duplicate_wins_aux anv t sec opt o hlast hval hdef
+
+/-- three ways to meet the side condition: asking for DEFAULT itself; a document without a DEFAULT
+    section; no DEFAULT option of that lower-cased name -/
+theorem defaultsInert_of (t : IniTree) (sec k : Str)
+    (h : sec = DEFAULT ∨ (∀ s ∈ t, s.name ≠ DEFAULT) ∨ ∀ d ∈ defaultOpts t, lower d.name ≠ k) :
+    defaultsInert t sec k = true := by
+  simp only [defaultsInert, Bool.or_eq_true, beq_iff_eq, List.all_eq_true, bne_iff_ne, ne_eq]
+  rcases h with h | h | h
+  · exact Or.inl h
+  · right
+    intro d hd
+    have : defaultOpts t = [] := by
+      unfold defaultOpts
+      have : t.filter (fun s => decide (s.name = DEFAULT)) = [] := by
+        apply List.filter_eq_nil_iff.mpr
+        intro s hs; simpa using h s hs
+      rw [this]; rfl
+    rw [this] at hd; simp at hd
+  · right
+    intro d hd
+    exact Or.inl (h d hd)
+
+/-- a DEFAULT option spelled exactly like an option of every `[a]` does not interfere; one spelled
+    differently (`[a] Key … [DEFAULT] key`) does, and the side condition says so -/
+example : defaultsInert [⟨"a".toList, [⟨"key".toList, some "1".toList⟩]⟩, ⟨DEFAULT, [⟨"key".toList, some "d".toList⟩]⟩,
+      ⟨"a".toList, [⟨"key".toList, some "2".toList⟩]⟩] "a".toList "key".toList = true ∧
+    iniGet (iniView false [⟨"a".toList, [⟨"key".toList, some "1".toList⟩]⟩, ⟨DEFAULT, [⟨"key".toList, some "d".toList⟩]⟩,
+      ⟨"a".toList, [⟨"key".toList, some "2".toList⟩]⟩]) "a".toList "KEY".toList = .ok (some "2".toList) ∧
+    defaultsInert [⟨"a".toList, [⟨"Key".toList, some "1".toList⟩]⟩, ⟨DEFAULT, [⟨"key".toList, some "d".toList⟩]⟩]
+      "a".toList "key".toList = false := by decide
+
+/-- a document that meets every hypothesis: `[a] Key=1 KEY=2  [DEFAULT] zz=d  [a] key=0 other key=3` -/
+def exIni2 : IniTree :=
+  [⟨"a".toList, [⟨"Key".toList, some "1".toList⟩, ⟨"KEY".toList, some "2".toList⟩]⟩,
+   ⟨DEFAULT, [⟨"zz".toList, some "d".toList⟩]⟩,
+   ⟨"a".toList, [⟨"key".toList, some "0".toList⟩, ⟨"other".toList, none⟩, ⟨"key".toList, some "3".toList⟩]⟩]
+
+example : (occurrences exIni2 (strip " a ".toList) (lower "kEY".toList)).getLast? = some ⟨"key".toList, some "3".toList⟩ ∧
+    defaultsInert exIni2 (strip " a ".toList) (lower "kEY".toList) = true ∧
+    iniGet (iniView false exIni2) " a ".toList "kEY".toList = .ok (some "3".toList) := by decide
+
+/-- the statement WITHOUT the side condition: false of the current code -/
+def IniLastDuplicateWinsFull : Prop :=
+  ∀ (anv : Bool) (t : IniTree) (sec opt : Str) (o : IniOpt),
+    (occurrences t (strip sec) (lower opt)).getLast? = some o → (o.value.isSome = true ∨ anv = true) →
+    iniGet (iniView anv t) sec opt = .ok o.value
+
+/-- known finding ini-default-overrides-explicit again: `[s] Key = explicit  [DEFAULT] KEY = dflt` —
+    `apply_defaults` appends `KEY` to `[s]` because no option of `[s]` is spelled `KEY` -/
+theorem ini_last_duplicate_wins_witness : ¬ IniLastDuplicateWinsFull := by
+  intro h
+  have := h false [⟨"s".toList, [⟨"Key".toList, some "explicit".toList⟩]⟩, ⟨DEFAULT, [⟨"KEY".toList, some "dflt".toList⟩]⟩]
+    "s".toList "key".toList ⟨"Key".toList, some "explicit".toList⟩ (by decide) (by decide)
+  revert this
+  decide
+
+/-- an option that occurs in no section of that name (and is not inherited) is reported absent -/
+theorem ini_option_absent (anv : Bool) (t : IniTree) (sec opt : Str)
+    (hocc : occurrences t (strip sec) (lower opt) = [])
+    (hdef : defaultsInert t (strip sec) (lower opt) = true) :
+    iniHasOption (iniView anv t) sec opt = false := by
+  have h := buildDict_absent anv (applyDefaults t) (strip sec) (lower opt)
+    (by rw [occurrences_applyDefaults t _ _ hdef]; exact hocc)
+  unfold iniLookup at h
+  unfold iniHasOption iniView
+  cases hs : dictGet (buildDict anv (applyDefaults t)) (strip sec) with
+  | none => rfl
+  | some hd =>
+    rw [hs] at h
+    simp only [Option.bind_some] at h
+    simp [h]
+
+/-- REPEATED SECTIONS MERGE: parsing one more section `s` (`d[s.name][k]` written `iniLookup d s.name k`)
+    (1) an option of `s` overrides the value merged so far, any other option keeps it;
+    (2) the entry of `s.name` is the old entry `.update`d with the new section's dict (or the new
+        dict, for a first occurrence);
+    (3) every other section is untouched. -/
+theorem ini_repeated_sections_merge (anv : Bool) (t : IniTree) (s : IniSec) :
+    (∀ k, iniLookup (buildDict anv (t ++ [s])) s.name k
+        = (dictGet (sectionDict anv s) k).or (iniLookup (buildDict anv t) s.name k)) ∧
+    dictGet (buildDict anv (t ++ [s])) s.name
+        = some (match dictGet (buildDict anv t) s.name with
+                | some old => dictUpdate old (sectionDict anv s)
+                | none => sectionDict anv s) ∧
+    (∀ sec, sec ≠ s.name → dictGet (buildDict anv (t ++ [s])) sec = dictGet (buildDict anv t) sec) := by
+  have e : buildDict anv (t ++ [s]) = buildStep anv (buildDict anv t) s := by
+    simp only [buildDict_eq, List.foldl_append, List.foldl_cons, List.foldl_nil]
+  refine ⟨?_, ?_, ?_⟩
+  · intro k
+    rw [e, buildStep_lookup, if_pos rfl]
+  · rw [e]
+    unfold buildStep
+    cases dictGet (buildDict anv t) s.name <;> simp [dictGet_dictSet]
+  · intro sec hsec
+    rw [e]
+    unfold buildStep
+    have : ¬ s.name = sec := fun h => hsec h.symm
+    cases dictGet (buildDict anv t) s.name <;> simp [dictGet_dictSet, this]
+
+/-- … with later occurrences overriding earlier ones: what `get` sees depends only on the sequence of
+    occurrences of the option across the repetitions of the section — a repeated section reads like
+    ONE section holding all its options in document order -/
+theorem ini_lookup_determined_by_occurrences (anv : Bool) (t t' : IniTree) (sec k : Str)
+    (h : occurrences t sec k = occurrences t' sec k)
+    (hval : ∀ o, (occurrences t sec k).getLast? = some o → o.value.isSome = true ∨ anv = true) :
+    iniLookup (buildDict anv t) sec k = iniLookup (buildDict anv t') sec k := by
+  cases hl : (occurrences t sec k).getLast? with
+  | none =>
+    have h0 := List.getLast?_eq_none_iff.mp hl
+    rw [buildDict_absent anv t sec k h0, buildDict_absent anv t' sec k (h ▸ h0)]
+  | some o =>
+    rw [buildDict_last anv t sec k o hl (hval o hl), buildDict_last anv t' sec k o (h ▸ hl) (hval o hl)]
+
+example : occurrences [⟨"a".toList, [⟨"k".toList, some "1".toList⟩]⟩, ⟨"b".toList, []⟩, ⟨"a".toList, [⟨"K".toList, some "2".toList⟩]⟩] "a".toList "k".toList
+    = occurrences [⟨"a".toList, [⟨"k".toList, some "1".toList⟩, ⟨"K".toList, some "2".toList⟩]⟩, ⟨"b".toList, []⟩] "a".toList "k".toList := by decide
+
+example : iniLookup (buildDict false [⟨"a".toList, [⟨"k".toList, some "1".toList⟩, ⟨"j".toList, some "x".toList⟩]⟩, ⟨"b".toList, []⟩,
+      ⟨"a".toList, [⟨"K".toList, some "2".toList⟩]⟩]) "a".toList "k".toList = some (some "2".toList) ∧
+    iniLookup (buildDict false [⟨"a".toList, [⟨"k".toList, some "1".toList⟩, ⟨"j".toList, some "x".toList⟩]⟩, ⟨"b".toList, []⟩,
+      ⟨"a".toList, [⟨"K".toList, some "2".toList⟩]⟩]) "a".toList "j".toList = some (some "x".toList) := by decide
 
 end IV.TextFormats
